@@ -376,6 +376,26 @@ fn expand_calibrations(req: &Value) -> Value {
     json!({"source_body": source_body, "plain": plain, "mapped": mapped})
 }
 
+/// Both gate-sequence expansion entry points with the filter "name is in `selected`".
+fn expand_defgate_sequences(req: &Value) -> Value {
+    let program = match Program::from_str(req["program"].as_str().unwrap()) {
+        Ok(p) => p,
+        Err(e) => return json!({"input_error": format!("{e:?}")}),
+    };
+    let selected: Vec<String> = req["selected"].as_array().unwrap().iter().map(|s| s.as_str().unwrap().to_string()).collect();
+    let source_body: Vec<Value> = program.body_instructions().map(dbg).collect();
+    let source_listing = listing(&program.to_instructions());
+    let mapped = match program.expand_defgate_sequences_with_source_map(|n| selected.iter().any(|s| s == n)) {
+        Ok((p, sm)) => json!({"ok": {"body": p.body_instructions().map(dbg).collect::<Vec<_>>(), "listing": listing(&p.to_instructions()), "source_map": dbg(&sm)}}),
+        Err(e) => json!({"err": format!("{e:?}")}),
+    };
+    let plain = match program.clone().expand_defgate_sequences(|n| selected.iter().any(|s| s == n)) {
+        Ok(p) => json!({"ok": {"body": p.body_instructions().map(dbg).collect::<Vec<_>>(), "listing": listing(&p.to_instructions())}}),
+        Err(e) => json!({"err": format!("{e:?}")}),
+    };
+    json!({"source_body": source_body, "source_listing": source_listing, "plain": plain, "mapped": mapped})
+}
+
 /// type_check verdict for each program text: "Ok" or the error variant name.
 fn type_check(req: &Value) -> Value {
     let mut out = vec![];
@@ -464,6 +484,7 @@ pub fn run(op: &str, req: &Value) -> Value {
         "type_check" => type_check(req),
         "expand_calibrations" => expand_calibrations(req),
         "calibration_match" => calibration_match(req),
+        "expand_defgate_sequences" => expand_defgate_sequences(req),
         "roles" => roles(req),
         "schedule_graph" => schedule_graph(req),
         "extern_signature_map" => extern_signature_map(req),
